@@ -16,7 +16,7 @@ def run(chk):
     items = c01.grammar_corpus(chk)
     seen = set()
     base = []
-    max_nodes = 14 if chk.quick else 22
+    max_nodes = 14 if chk.quick else 18
     for it in items:
         text, tokens = corpus.render(it["toks"], rng, compact=True, avoid_keywords=True)
         entry = langreplay.entry_of(it["start"])
@@ -29,7 +29,7 @@ def run(chk):
         seen.add(sig)
         base.append(c)
     # quick: a budgeted subset that still covers every (parent kind, role, child kind) triple of the corpus
-    budget = 900 if chk.quick else len(base)
+    budget = 900 if chk.quick else min(len(base), 5000)      # (memory: every plan of every case is held for the replay)
     rng.shuffle(base)
     base.sort(key=lambda c: c["n"])
     covered = set()
@@ -58,7 +58,7 @@ def run(chk):
             cases.append(dict(c, m=3, vis=[1, 2, 3] if k % 2 else [1, 2, 1]))
     chk.count("trees/distinct-shapes", len(seen))
     chk.count("cases", len(cases))
-    behs = visitreplay.generate(chk, cases, 12 if chk.quick else 18, 5 if chk.quick else 7,
+    behs = visitreplay.generate(chk, cases, 12 if chk.quick else 15, 5 if chk.quick else 6,
                                 "GqlVisitor plans for %d cases" % len(cases))
     chk.count("plans", len(behs))
     n, div = visitreplay.replay(cases, behs)
